@@ -281,7 +281,9 @@ EXTRA = {
  "C13": "The stress driver also issues LOGIN answered without CAPABILITY code (the client's internal CAPABILITY command competes with the other goroutines) and "
         "APPEND; the hook log of a round is taken at quiescence.",
  "C14": "IdleNotify.tla specifies the wake-up protocol between a command holding the mailbox lock and an idling session (bounded channel, non-blocking send; the "
-        "blocking variant is the vacuity guard) and is replayed for every (client behaviour x burst class) on the real server. A stress stall explained by a "
+        "blocking variant is the vacuity guard) and is replayed for every (client behaviour x burst class) on the real server; its safety part (no stuck "
+        "state, no lost wake-up) is also proved for every channel capacity and burst size by an inductive invariant discharged with Apalache "
+        "(IdleNotifyInd.tla: base, step, implication, two non-vacuity guards). A stress stall explained by a "
         "logged server panic is reported as command-never-completes/server-panic.",
  "C15": "Every flavour (imapnum.Set, SeqSet, UIDSet; value, pointer) also starts from an empty literal and from make(T, 0).",
  "C16": "Every encode vector also goes through the real call sites (imapwire.Encoder.Mailbox -> wire text -> Decoder.ExpectMailbox).",
